@@ -88,6 +88,12 @@ class RightClickSetup(EventMixin):
         func_map = self.datapack.parse_func_map(
             self.raw_args["functionMap"].token, self.tokenizer, self.prefix
         )
+        if not func_map:
+            raise JMCSyntaxException(
+                "Expected at least 1 function in functionMap (got an empty map)",
+                self.raw_args["functionMap"].token,
+                self.tokenizer,
+            )
         is_switch = sorted(func_map) == list(range(1, len(func_map) + 1))
 
         id_name = self.args["idName"]
@@ -496,6 +502,12 @@ class TriggerSetup(JMCFunction):
         func_map = self.datapack.parse_func_map(
             self.raw_args["triggers"].token, self.tokenizer, self.prefix
         )
+        if not func_map:
+            raise JMCSyntaxException(
+                "Expected at least 1 function in triggers (got an empty map)",
+                self.raw_args["triggers"].token,
+                self.tokenizer,
+            )
         is_switch = sorted(func_map) == list(range(1, len(func_map) + 1))
 
         obj = self.args["objective"]
